@@ -99,6 +99,7 @@ def c12(run):
     from rules import r_session
     P = run.prog('rel')
     r_session.run_ref_tmp(run, P)
+    r_session.run_rel_owed(run, P)
     r_session.run_ref_hold(run, P)
     r_session.run_ref_stale(run, P)
     r_session.run_sess_evt(run, P)
@@ -586,6 +587,8 @@ def c07(run):
     r_pairargs.run_token_identity(run, P)    # the request a response retires is found by its token, whatever the token's length
     from rules import r_ownnode
     r_ownnode.run_queue_key(run, P)      # an ACK / RST / duplicate retires only the request of its own session and message id: no other request loses its retransmission
+    from rules import r_midzero
+    r_midzero.run(run, P)                # the request that happens to get message id 0 is queued, retransmitted and concluded like any other ("never neither")
     run.min_instances('R-RESP', 4)
     run.assumptions = ASSUME_COMMON + ["exactly-once conclusion over all patterns of loss / duplication / delay, the NACK side (coap_retransmit give-up, decided under C06) and the "
                                        "server's separate-response machinery are NOT decided; returns of handle_response() that never reach the handler (token-size / Q-Block "
@@ -596,7 +599,7 @@ def c07(run):
         "handler); exactly one ACK/RST for the received PDU after the handler, the Reset exactly on the FAIL-and-not-ACK arm, with the recorded verdict "
         "agreeing; a non-ACK response cancels the request's retransmission by token before the handler; a response consumed by sending the next Block1 is "
         "acknowledged (R-RESP). Library-wide, a named constant stored into a record field fits the field's type, so the "
-        "COAP_INVALID_MID marker of the duplicate filter cannot wrap onto a legal message id (R-WIDTH c). An ACK / RST / duplicate retires only the queued request of its own session and message id (R-QUEUE-KEY). The pending test of handle_request() and the due test of the async scheduler partition the values of async->delay (async pending).")
+        "COAP_INVALID_MID marker of the duplicate filter cannot wrap onto a legal message id (R-WIDTH c). An ACK / RST / duplicate retires only the queued request of its own session and message id (R-QUEUE-KEY). The pending test of handle_request() and the due test of the async scheduler partition the values of async->delay (async pending). No test on a message id separates 0 from the other ids, so the request that carries id 0 keeps its retransmission node (R-MID-ZERO).")
 
 
 def c11(run):
@@ -609,6 +612,7 @@ def c11(run):
     r_observe.run_delete_key(run, P)
     r_observe.run_delete_all(run, P)
     r_observe.run_fail_count(run, P)
+    r_observe.run_counter_owner(run, P)
     from rules import r_pairargs
     r_pairargs.run_token_identity(run, P)
     from rules import r_finderkey
